@@ -58,8 +58,19 @@ def make_scenarios(ctx, count):
                 obs.append((srcs[k], obs[0][1]))          # same real source, other Ethernet source
                 obs.append((obs[1][0], reals[5] if reals[5] != obs[1][1] else reals[4]))   # same Ethernet source, other real source
             burst = []
-            for (es, rs) in obs:
-                burst.append(W.probe(own, es, own, rs, train=rng.random() < 0.4))
+            trains = [rng.random() < 0.4 for _ in obs]
+            if obs and rng.random() < 0.35:
+                # the mapper first has this station emit with spoofed sources - the very (kind, source, destination) triples
+                # that other stations will use towards this station in a moment: what we sent must not be confused with
+                # what we then receive
+                picks = rng.sample(range(len(obs)), min(len(obs), rng.randint(1, 3)))
+                descs = []
+                for j in picks:
+                    descs.append((0 if trains[j] else 1, 0, obs[j][0], own if rng.random() < 0.7 else rng.choice(net.strangers)))
+                seq = seq + 1 if seq < 0xFFFF else 1
+                frames.append(W.emit(own, net.mappers[m], seq, descs, eth_src=net.bridges[m] if bridged else None))
+            for (es, rs), tr in zip(obs, trains):
+                burst.append(W.probe(own, es, own, rs, train=tr))
                 if rng.random() < 0.15:                    # exact duplicate
                     burst.append(burst[-1])
             for _ in range(rng.randint(0, 6)):             # frames for other stations
